@@ -103,6 +103,20 @@ def hash_ops(has_bitlen=True, has_salt=False, update=True):
         def initstate(x, c):
             x.call(c, "initstate", cls=HIST)
         ops["initstate"] = (HIST, initstate)
+        if has_bitlen:
+            def update_fin_bitlen(x, c):
+                m = x.msg() or b"\x81"
+                x.call(c, "update", [B(m)], {"padding": True, "bitlen": _bitlen_for(x.rng, m)}, cls=HIST, tag="update_fin_bitlen")
+            ops["update_fin_bitlen"] = (HIST, update_fin_bitlen)
+
+        def pad_poke(x, c):
+            # the padding object is a public attribute: a user may drive or reset it directly
+            if x.rng.random() < 0.5:
+                x.call(c, "padmethod.reset", cls=HIST, tag="pad_poke")
+            else:
+                g = x.call(c, "padmethod.iterblocks", [B(x.msg())], cls=HIST, tag="pad_poke")
+                x.pb.step(c, k="drain", gen=g, max=8, cls=HIST, tag="drain", kind=x.kind, obj=x.obj)
+        ops["pad_poke"] = (HIST, pad_poke)
 
         def iter_part(x, c):
             m = rbytes(x.rng, x.info["bb"] * 2 + 3)
@@ -373,6 +387,13 @@ def tlsh_ops():
             x.call(c, "reset", cls=HIST)
     ops["from_hash"] = (HIST, from_hash)
 
+    def distance_to(x, c):
+        if x.encs:
+            x.call(c, "distance_to", [{"ref": x.rng.choice(x.encs)}], cls=HIST, tag="distance_to")
+        else:
+            x.call(c, "digest", cls=HIST, tag="distance_to")
+    ops["distance_to"] = (HIST, distance_to)
+
     def call_short(x, c):
         x.call(c, "__call__", [B(rbytes(x.rng, x.rng.randint(0, 49)))], cls=BAD, tag="call_short")
     ops["call_short"] = (BAD, call_short)
@@ -489,6 +510,19 @@ def mode_ops(ctr=False):
         x.pb.step(c, k="pull", gen=g, n=x.rng.randint(1, 2), cls=ABN, tag="pull", kind=x.kind,
                   obj=x.obj)
     ops["iter_part"] = (ABN, iter_part)
+    def pad_poke(x, c):
+        # the mode's padding object is a public attribute
+        if x.rng.random() < 0.4:
+            x.call(c, "pad.reset", cls=HIST, tag="pad_poke")
+        else:
+            g = x.call(c, "pad.iterblocks", [B(mm(x))], cls=HIST, tag="pad_poke")
+            x.pb.step(c, k="drain", gen=g, max=8, cls=HIST, tag="drain", kind=x.kind, obj=x.obj)
+    ops["pad_poke"] = (HIST, pad_poke)
+    if ctr:
+        def counter_tick(x, c):
+            for _ in range(x.rng.randint(1, 3)):
+                x.call(c, "counter", cls=HIST, tag="counter_tick")
+        ops["counter_tick"] = (HIST, counter_tick)
     if not ctr:
         def bad_dec(x, c):
             x.call(c, "dec", [B(_unaligned(x.rng, x.info["bb"]))], cls=BAD, tag="bad_dec")
@@ -1426,9 +1460,10 @@ class C10(Machine):
 
     def explain_nullpad_dec(self, plan, v):
         """Known finding C10/nullpadding-dec: a mode object built with Nullpadding strips, in
-        dec(), the number of pad bits its *previous enc()* added.  True iff the minimised plan
-        is 'enc ... enc, dec' on one such object without faults and the observed outcome is
-        exactly what that defect predicts; anything else is reported as a new violation."""
+        dec(), the number of pad bits that the last padding on that object added (its previous
+        enc(), or its public pad object driven directly).  True iff the minimised plan is
+        '(enc | pad.iterblocks+drain)..., dec' on one such object without faults and the observed
+        outcome is exactly what that defect predicts; anything else is reported as new."""
         steps = plan["steps"]
         if len(steps) < 2 or any(s.get("fault") for s in steps):
             return False
@@ -1436,13 +1471,25 @@ class C10(Machine):
         rec = plan["objects"][oi]
         if rec.get("kind") not in ("ECB", "CBC") or rec.get("pad") != "Nullpadding":
             return False
-        if any(s.get("obj") != oi or s.get("k") != "call" for s in steps):
+        if any(s.get("obj") != oi for s in steps):
             return False
-        if steps[-1].get("name") != "dec" or any(s.get("name") != "enc" for s in steps[:-1]):
+        if steps[-1].get("name") != "dec" or steps[-1]["id"] != v["step"]:
             return False
-        if steps[-1]["id"] != v["step"]:
-            return False
-        m = steps[-2]["args"][0]
+        # what padded last on this object: an enc(M), or the (public) pad object driven directly
+        # over M and drained; nothing else may appear in the minimal history
+        m = None
+        for i, st in enumerate(steps[:-1]):
+            if st.get("k") == "call" and st.get("name") == "enc":
+                m = st["args"][0]
+            elif st.get("k") == "call" and st.get("name") == "pad.iterblocks":
+                nxt = steps[i + 1] if i + 1 < len(steps) - 1 else None
+                if not (nxt and nxt.get("k") == "drain" and nxt.get("gen") == st["id"]):
+                    return False
+                m = st["args"][0]
+            elif st.get("k") == "drain":
+                continue
+            else:
+                return False
         if not (isinstance(m, dict) and "b" in m):
             return False
         n = len(m["b"]) // 2
